@@ -92,6 +92,9 @@ class Operation(ElementBase):
         https://github.com/OpenFOAM/OpenFOAM-10/blob/master/src/meshTools/searchableSurfaces/searchableSurfacesQueries/searchableSurfacesQueries.H
         """
         # bottom and top faces define operation's points
+        if corner < 0 or corner > 7:
+            raise ValueError(f"Corner index must be between 0 and 7, got {corner}")
+
         if corner > 3:
             self.top_face.points[corner - 4].project(label)
         else:
